@@ -25,7 +25,7 @@ def run(ck):
         if len(g["vals"]) >= 6:
             groups.append({"vals": g["vals"], "C": g["C"], "calls": [pcall("bc", "list")]})
     ck.cat("bags_of_6_to_9_items", sum(1 for g in B if len(g["vals"]) >= 6))
-    fam = gen.pack_families(ck.rng, 260 if q else 12000, maxn=11 if q else 12, minv=1)
+    fam = gen.pack_families(ck.rng, 260 if q else 5000, maxn=11 if q else 12, minv=1)
     for g in fam + WITNESS:
         g = dict(g)
         g["vals"] = [max(1, v) for v in g["vals"]][:12]
@@ -39,7 +39,7 @@ def run(ck):
               "oracle cross-validation MinBins vs canonical-subset recursion")
     if r.violated:
         raise core.Machinery("oracle cross-validation failed: MinBins")
-    traces = run_pack_groups(ck, groups, {"C04"}, "C04 minimum number of bins", chunk=3000)
+    traces = run_pack_groups(ck, groups, {"C04"}, "C04 minimum number of bins", chunk=1500)
     from ..textbook import bfd_count, lb_count
     for t in traces:
         if bfd_count(t["vals"], t["C"]) > lb_count(t["vals"], t["C"]):
